@@ -135,7 +135,7 @@ Qed.
 Lemma ot_member_defined s d idx : file_ok s -> defined (ot_member s d idx).
 Proof.
   intros [Hl Hb]. destruct d as [ot|offs]; cbn [ot_member]; [apply defined_ok|].
-  destruct (nth_opt offs idx) as [off|]; [|apply defined_err].
+  destruct (nth_safe offs idx) as [off|]; [|apply defined_err].
   unfold scope_offset, wadd. cbn [bind].
   set (s' := {| base := (base s + off) mod USIZE; data := slice_from (data s) off |}).
   assert (dlen s' <= dlen s) as Hd by (unfold s', dlen; cbn [data]; apply len_slice_from_le).
